@@ -22,7 +22,8 @@ static void wr_set(const char *c) {
     (void)c;
 #endif
 }
-#define CK(x) do { WL_CTX(x); if ((long)(x) == FAIL) wl_nfail++; } while (0)
+#define WL_DBG(x) do { if (getenv("WL_DEBUG")) { fprintf(stderr, "WL-FAIL %s\n", #x); HEprint(stderr, 0); } } while (0)
+#define CK(x) do { WL_CTX(x); if ((long)(x) == FAIL) { wl_nfail++; WL_DBG(x); } } while (0)
 #define ID(id, x) (WL_CTX(x), (id) = (x))
 #define CKID(id, x) do { WL_CTX(x); (id) = (x); if ((id) == FAIL) { wl_nfail++; goto done; } } while (0)
 
@@ -56,7 +57,9 @@ static int prep_rich(const char *path)
     gr = GRstart(fid); { int32 dims[2] = {5, 4}, st[2] = {0, 0}; ri = GRcreate(gr, "img", 3, DFNT_UINT8, MFGR_INTERLACE_PIXEL, dims); wl_fill(b, 600, 6); GRwriteimage(ri, st, NULL, dims, b); int32 av = 79; GRsetattr(ri, "iatt", DFNT_INT32, 1, &av); av = 80; GRsetattr(gr, "gatt", DFNT_INT32, 1, &av); GRendaccess(ri); } GRend(gr);
     if (Hclose(fid) == FAIL) return -1;
     /* an old-style (DFR8) raster stored run-length encoded: GR reaches it through the compressed-raster special element */
-    { uint8 r8[8 * 6]; for (int i = 0; i < 48; i++) r8[i] = (uint8)(i / 8 + 3); if (DFR8addimage(path, r8, 8, 6, COMP_RLE) == FAIL) return -1; }
+    /* DFR8restart: the DFR8 interface keeps per-file-NAME state (last file, last refs) across calls; the engines re-create files under the same
+       name, which is the situation that state cannot follow (same family as the known finding dfan-stale-dir) */
+    { uint8 r8[8 * 6]; for (int i = 0; i < 48; i++) r8[i] = (uint8)(i / 8 + 3); DFR8restart(); if (DFR8addimage(path, r8, 8, 6, COMP_RLE) == FAIL) return -1; }
     sd = SDstart(path, DFACC_RDWR); if (sd == FAIL) return -1;
     { int32 dims[2] = {4, 6}, st[2] = {0, 0}; int16 v[24]; for (int i = 0; i < 24; i++) v[i] = (int16)(i * 3 - 7);
       sds = SDcreate(sd, "temp", DFNT_INT16, 2, dims); SDwritedata(sds, st, NULL, dims, v); float32 f = 2.5f; SDsetattr(sds, "scale", DFNT_FLOAT32, 1, &f); SDendaccess(sds); }
@@ -78,8 +81,8 @@ static int run_h_stream(const char *path)       /* append-only: streamed element
 {
     uint8 b[500]; int32 fid, aid; wl_nfail = 0;
     CKID(fid, Hopen(path, DFACC_RDWR, 0));
-    ID(aid, Hstartwrite(fid, 1200, 1, 120)); if (aid == FAIL) wl_nfail++; else { wl_fill(b, 500, 20); CK(Hwrite(aid, 50, b)); CK(Hwrite(aid, 70, b + 50)); CK(Hendaccess(aid)); }
-    ID(aid, HLcreate(fid, 1201, 1, 32, 2)); if (aid == FAIL) wl_nfail++; else { wl_fill(b, 500, 21); CK(Hwrite(aid, 100, b)); CK(Hseek(aid, 150, DF_START)); CK(Hwrite(aid, 30, b)); CK(Hendaccess(aid)); }
+    ID(aid, Hstartwrite(fid, 1200, 1, 120)); if (aid == FAIL) { wl_nfail++; WL_DBG(aid); } else { wl_fill(b, 500, 20); CK(Hwrite(aid, 50, b)); CK(Hwrite(aid, 70, b + 50)); CK(Hendaccess(aid)); }
+    ID(aid, HLcreate(fid, 1201, 1, 32, 2)); if (aid == FAIL) { wl_nfail++; WL_DBG(aid); } else { wl_fill(b, 500, 21); CK(Hwrite(aid, 100, b)); CK(Hseek(aid, 150, DF_START)); CK(Hwrite(aid, 30, b)); CK(Hendaccess(aid)); }
     CK(Hclose(fid));
 done: return wl_nfail;
 }
@@ -87,7 +90,7 @@ static int run_h_append(const char *path)       /* modifies existing objects: ap
 {
     uint8 b[300]; int32 fid, aid; wl_nfail = 0;
     CKID(fid, Hopen(path, DFACC_RDWR, 0));
-    ID(aid, Hstartaccess(fid, 1000, 1, DFACC_RDWR | DFACC_APPENDABLE)); if (aid == FAIL) wl_nfail++; else { wl_fill(b, 300, 30); CK(Hseek(aid, 0, DF_END)); CK(Hwrite(aid, 120, b)); CK(Hseek(aid, 10, DF_START)); CK(Hwrite(aid, 5, b)); CK(Hendaccess(aid)); }
+    ID(aid, Hstartaccess(fid, 1000, 1, DFACC_RDWR | DFACC_APPENDABLE)); if (aid == FAIL) { wl_nfail++; WL_DBG(aid); } else { wl_fill(b, 300, 30); CK(Hseek(aid, 0, DF_END)); CK(Hwrite(aid, 120, b)); CK(Hseek(aid, 10, DF_START)); CK(Hwrite(aid, 5, b)); CK(Hendaccess(aid)); }
     CK(Hdeldd(fid, 1001, 1));
     CK(Hclose(fid));
 done: return wl_nfail;
@@ -98,9 +101,9 @@ static int run_h_comp(const char *path)         /* append-only: RLE and deflate 
     memset(&ci, 0, sizeof ci); memset(&mi, 0, sizeof mi);
     CKID(fid, Hopen(path, DFACC_RDWR, 0));
     for (int i = 0; i < 2000; i++) b[i] = (uint8)((i / 37) & 3);
-    ID(aid, HCcreate(fid, 1300, 1, COMP_MODEL_STDIO, &mi, COMP_CODE_RLE, &ci)); if (aid == FAIL) wl_nfail++; else { CK(Hwrite(aid, 2000, b)); CK(Hendaccess(aid)); }
+    ID(aid, HCcreate(fid, 1300, 1, COMP_MODEL_STDIO, &mi, COMP_CODE_RLE, &ci)); if (aid == FAIL) { wl_nfail++; WL_DBG(aid); } else { CK(Hwrite(aid, 2000, b)); CK(Hendaccess(aid)); }
     ci.deflate.level = 6;
-    ID(aid, HCcreate(fid, 1300, 2, COMP_MODEL_STDIO, &mi, COMP_CODE_DEFLATE, &ci)); if (aid == FAIL) wl_nfail++; else { CK(Hwrite(aid, 1500, b)); CK(Hendaccess(aid)); }
+    ID(aid, HCcreate(fid, 1300, 2, COMP_MODEL_STDIO, &mi, COMP_CODE_DEFLATE, &ci)); if (aid == FAIL) { wl_nfail++; WL_DBG(aid); } else { CK(Hwrite(aid, 1500, b)); CK(Hendaccess(aid)); }
     CK(Hclose(fid));
 done: return wl_nfail;
 }
@@ -109,12 +112,12 @@ static int run_vs_new(const char *path)         /* append-only: new Vdata and Vg
     uint8 b[4000]; int32 fid, vs, vg; wl_nfail = 0;
     CKID(fid, Hopen(path, DFACC_RDWR, 0));
     CK(Vstart(fid));
-    ID(vs, VSattach(fid, -1, "w")); if (vs == FAIL) wl_nfail++;
+    ID(vs, VSattach(fid, -1, "w")); if (vs == FAIL) { wl_nfail++; WL_DBG(vs); }
     else {
         CK(VSsetname(vs, "newtable")); CK(VSfdefine(vs, "x", DFNT_INT16, 3)); CK(VSfdefine(vs, "y", DFNT_FLOAT64, 1)); CK(VSsetfields(vs, "x,y"));
         wl_fill(b, 4000, 40); CK(VSwrite(vs, b, 100, FULL_INTERLACE));
         int32 r = (wr_set("VSQueryref"), VSQueryref(vs)); CK(VSdetach(vs));
-        ID(vg, Vattach(fid, -1, "w")); if (vg == FAIL) wl_nfail++; else { CK(Vsetname(vg, "newgroup")); CK(Vaddtagref(vg, DFTAG_VH, r)); CK(Vaddtagref(vg, 1000, 2)); CK(Vdetach(vg)); }
+        ID(vg, Vattach(fid, -1, "w")); if (vg == FAIL) { wl_nfail++; WL_DBG(vg); } else { CK(Vsetname(vg, "newgroup")); CK(Vaddtagref(vg, DFTAG_VH, r)); CK(Vaddtagref(vg, 1000, 2)); CK(Vdetach(vg)); }
     }
     CK(Vend(fid));
     CK(Hclose(fid));
@@ -127,11 +130,11 @@ static int run_vs_append(const char *path)      /* modifies an existing Vdata (a
     CK(Vstart(fid));
     ref = (wr_set("VSfind"), VSfind(fid, "table"));
     vs = ref > 0 ? (wr_set("VSattach"), VSattach(fid, ref, "w")) : FAIL;
-    if (vs == FAIL) wl_nfail++;
+    if (vs == FAIL) { wl_nfail++; WL_DBG(vs); }
     else { CK(VSsetfields(vs, "a,b")); CK(VSseek(vs, 19)); wl_fill(b, 2000, 41); CK(VSwrite(vs, b, 1, FULL_INTERLACE)); CK(VSwrite(vs, b, 30, FULL_INTERLACE)); CK(VSdetach(vs)); }
     ref = (wr_set("Vfind"), Vfind(fid, "group"));
     vg = ref > 0 ? (wr_set("Vattach"), Vattach(fid, ref, "w")) : FAIL;
-    if (vg == FAIL) wl_nfail++; else { CK(Vaddtagref(vg, 1000, 2)); CK(Vsetname(vg, "renamed")); CK(Vdetach(vg)); }
+    if (vg == FAIL) { wl_nfail++; WL_DBG(vg); } else { CK(Vaddtagref(vg, 1000, 2)); CK(Vsetname(vg, "renamed")); CK(Vdetach(vg)); }
     CK(Vend(fid));
     CK(Hclose(fid));
 done: return wl_nfail;
@@ -140,10 +143,10 @@ static int run_an_new(const char *path)         /* append-only: new annotations 
 {
     int32 fid, an, ann; wl_nfail = 0;
     CKID(fid, Hopen(path, DFACC_RDWR, 0));
-    ID(an, ANstart(fid)); if (an == FAIL) wl_nfail++;
+    ID(an, ANstart(fid)); if (an == FAIL) { wl_nfail++; WL_DBG(an); }
     else {
-        ID(ann, ANcreate(an, 1000, 2, AN_DATA_DESC)); if (ann == FAIL) wl_nfail++; else { CK(ANwriteann(ann, "a description\0with nul", 22)); CK(ANendaccess(ann)); }
-        ID(ann, ANcreatef(an, AN_FILE_LABEL)); if (ann == FAIL) wl_nfail++; else { CK(ANwriteann(ann, "file label", 10)); CK(ANendaccess(ann)); }
+        ID(ann, ANcreate(an, 1000, 2, AN_DATA_DESC)); if (ann == FAIL) { wl_nfail++; WL_DBG(ann); } else { CK(ANwriteann(ann, "a description\0with nul", 22)); CK(ANendaccess(ann)); }
+        ID(ann, ANcreatef(an, AN_FILE_LABEL)); if (ann == FAIL) { wl_nfail++; WL_DBG(ann); } else { CK(ANwriteann(ann, "file label", 10)); CK(ANendaccess(ann)); }
         CK(ANend(an));
     }
     CK(Hclose(fid));
@@ -153,13 +156,13 @@ static int run_gr_new(const char *path)         /* new GR image + palette (GR re
 {
     uint8 b[3000]; int32 fid, gr, ri, pal; wl_nfail = 0;
     CKID(fid, Hopen(path, DFACC_RDWR, 0));
-    ID(gr, GRstart(fid)); if (gr == FAIL) wl_nfail++;
+    ID(gr, GRstart(fid)); if (gr == FAIL) { wl_nfail++; WL_DBG(gr); }
     else {
         int32 dims[2] = {9, 7}, st[2] = {0, 0};
-        ID(ri, GRcreate(gr, "second", 2, DFNT_UINT16, MFGR_INTERLACE_LINE, dims)); if (ri == FAIL) wl_nfail++;
+        ID(ri, GRcreate(gr, "second", 2, DFNT_UINT16, MFGR_INTERLACE_LINE, dims)); if (ri == FAIL) { wl_nfail++; WL_DBG(ri); }
         else {
             wl_fill(b, 3000, 50); CK(GRwriteimage(ri, st, NULL, dims, b));
-            ID(pal, GRgetlutid(ri, 0)); if (pal == FAIL) wl_nfail++; else { wl_fill(b, 768, 51); CK(GRwritelut(pal, 3, DFNT_UINT8, MFGR_INTERLACE_PIXEL, 256, b)); }
+            ID(pal, GRgetlutid(ri, 0)); if (pal == FAIL) { wl_nfail++; WL_DBG(pal); } else { wl_fill(b, 768, 51); CK(GRwritelut(pal, 3, DFNT_UINT8, MFGR_INTERLACE_PIXEL, 256, b)); }
             CK(GRendaccess(ri));
         }
         CK(GRend(gr));
@@ -172,8 +175,8 @@ static int run_sd_new(const char *path)         /* SD: new dataset + attributes 
     int32 sd, sds; wl_nfail = 0;
     CKID(sd, SDstart(path, DFACC_RDWR));
     { int32 dims[3] = {3, 4, 5}, st[3] = {0, 0, 0}; float32 v[60]; for (int i = 0; i < 60; i++) v[i] = (float32)i / 4;
-      ID(sds, SDcreate(sd, "newvar", DFNT_FLOAT32, 3, dims)); if (sds == FAIL) wl_nfail++;
-      else { CK(SDwritedata(sds, st, NULL, dims, v)); CK(SDsetattr(sds, "units", DFNT_CHAR8, 3, "m/s")); int32 d = (wr_set("SDgetdimid"), SDgetdimid(sds, 0)); if (d == FAIL) wl_nfail++; else CK(SDsetdimname(d, "zdim")); CK(SDendaccess(sds)); } }
+      ID(sds, SDcreate(sd, "newvar", DFNT_FLOAT32, 3, dims)); if (sds == FAIL) { wl_nfail++; WL_DBG(sds); }
+      else { CK(SDwritedata(sds, st, NULL, dims, v)); CK(SDsetattr(sds, "units", DFNT_CHAR8, 3, "m/s")); int32 d = (wr_set("SDgetdimid"), SDgetdimid(sds, 0)); if (d == FAIL) { wl_nfail++; WL_DBG(d); } else CK(SDsetdimname(d, "zdim")); CK(SDendaccess(sds)); } }
     CK(SDend(sd));
 done: return wl_nfail;
 }
@@ -183,10 +186,10 @@ static int run_sd_partial(const char *path)     /* SD: a new fixed-size dataset 
     int32 sd, sds; wl_nfail = 0;
     CKID(sd, SDstart(path, DFACC_RDWR));
     { int32 dims[2] = {40, 30}, st[2] = {17, 0}, ct[2] = {3, 30}, st2[2] = {30, 4}, ct2[2] = {2, 5}; int16 v[90]; for (int i = 0; i < 90; i++) v[i] = (int16)(1000 + i);
-      ID(sds, SDcreate(sd, "partial", DFNT_INT16, 2, dims)); if (sds == FAIL) wl_nfail++;
+      ID(sds, SDcreate(sd, "partial", DFNT_INT16, 2, dims)); if (sds == FAIL) { wl_nfail++; WL_DBG(sds); }
       else { CK(SDwritedata(sds, st, NULL, ct, v)); CK(SDwritedata(sds, st2, NULL, ct2, v)); CK(SDendaccess(sds)); }
       int32 d1[1] = {3000}, s1[1] = {2990}, c1[1] = {10}; float32 fv = -1.5f, w[10]; for (int i = 0; i < 10; i++) w[i] = (float32)i;
-      ID(sds, SDcreate(sd, "tail", DFNT_FLOAT32, 1, d1)); if (sds == FAIL) wl_nfail++;
+      ID(sds, SDcreate(sd, "tail", DFNT_FLOAT32, 1, d1)); if (sds == FAIL) { wl_nfail++; WL_DBG(sds); }
       else { CK(SDsetfillvalue(sds, &fv)); CK(SDwritedata(sds, s1, NULL, c1, w)); CK(SDendaccess(sds)); } }
     CK(SDend(sd));
 done: return wl_nfail;
@@ -197,7 +200,7 @@ static int run_sd_meta(const char *path)        /* SD: metadata only - a new dat
     int32 sd, sds; wl_nfail = 0;
     CKID(sd, SDstart(path, DFACC_RDWR));
     { int32 dims[2] = {7, 3};
-      ID(sds, SDcreate(sd, "empty", DFNT_INT32, 2, dims)); if (sds == FAIL) wl_nfail++; else { CK(SDsetattr(sds, "note", DFNT_CHAR8, 4, "none")); CK(SDendaccess(sds)); } }
+      ID(sds, SDcreate(sd, "empty", DFNT_INT32, 2, dims)); if (sds == FAIL) { wl_nfail++; WL_DBG(sds); } else { CK(SDsetattr(sds, "note", DFNT_CHAR8, 4, "none")); CK(SDendaccess(sds)); } }
     CK(SDsetattr(sd, "history", DFNT_CHAR8, 7, "session"));
     CK(SDend(sd));
 done: return wl_nfail;
@@ -206,10 +209,10 @@ static int run_gr_meta(const char *path)        /* GR: metadata only - a new fil
 {
     int32 fid, gr, ri; wl_nfail = 0;
     CKID(fid, Hopen(path, DFACC_RDWR, 0));
-    ID(gr, GRstart(fid)); if (gr == FAIL) wl_nfail++;
+    ID(gr, GRstart(fid)); if (gr == FAIL) { wl_nfail++; WL_DBG(gr); }
     else {
         int32 v = 42; CK(GRsetattr(gr, "gattr", DFNT_INT32, 1, &v));
-        int32 dims[2] = {3, 2}; ID(ri, GRcreate(gr, "blank", 1, DFNT_UINT8, MFGR_INTERLACE_PIXEL, dims)); if (ri == FAIL) wl_nfail++; else CK(GRendaccess(ri));
+        int32 dims[2] = {3, 2}; ID(ri, GRcreate(gr, "blank", 1, DFNT_UINT8, MFGR_INTERLACE_PIXEL, dims)); if (ri == FAIL) { wl_nfail++; WL_DBG(ri); } else CK(GRendaccess(ri));
         CK(GRend(gr));
     }
     CK(Hclose(fid));
@@ -221,9 +224,9 @@ static int run_sd_chunk(const char *path)       /* SD: chunked + deflate dataset
     CKID(sd, SDstart(path, DFACC_RDWR));
     { int32 dims[2] = {10, 9}, st[2] = {0, 0}; int32 v[90]; for (int i = 0; i < 90; i++) v[i] = i * i;
       HDF_CHUNK_DEF c; memset(&c, 0, sizeof c); c.comp.chunk_lengths[0] = 4; c.comp.chunk_lengths[1] = 4; c.comp.comp_type = COMP_CODE_DEFLATE; c.comp.cinfo.deflate.level = 3;
-      ID(sds, SDcreate(sd, "chunked", DFNT_INT32, 2, dims)); if (sds == FAIL) wl_nfail++; else { CK(SDsetchunk(sds, c, HDF_CHUNK | HDF_COMP)); CK(SDwritedata(sds, st, NULL, dims, v)); CK(SDendaccess(sds)); }
+      ID(sds, SDcreate(sd, "chunked", DFNT_INT32, 2, dims)); if (sds == FAIL) { wl_nfail++; WL_DBG(sds); } else { CK(SDsetchunk(sds, c, HDF_CHUNK | HDF_COMP)); CK(SDwritedata(sds, st, NULL, dims, v)); CK(SDendaccess(sds)); }
       int32 ud[2] = {SD_UNLIMITED, 3}, us[2] = {2, 0}, uc[2] = {3, 3};
-      ID(sds, SDcreate(sd, "records", DFNT_INT32, 2, ud)); if (sds == FAIL) wl_nfail++; else { CK(SDwritedata(sds, us, NULL, uc, v)); CK(SDendaccess(sds)); } }
+      ID(sds, SDcreate(sd, "records", DFNT_INT32, 2, ud)); if (sds == FAIL) { wl_nfail++; WL_DBG(sds); } else { CK(SDwritedata(sds, us, NULL, uc, v)); CK(SDendaccess(sds)); } }
     CK(SDend(sd));
 done: return wl_nfail;
 }
@@ -232,7 +235,7 @@ static int run_sd_modify(const char *path)      /* SD: overwrite part of an exis
     int32 sd, sds; wl_nfail = 0;
     CKID(sd, SDstart(path, DFACC_RDWR));
     { int32 idx = (wr_set("SDnametoindex"), SDnametoindex(sd, "temp")); sds = idx >= 0 ? (wr_set("SDselect"), SDselect(sd, idx)) : FAIL;
-      if (sds == FAIL) wl_nfail++;
+      if (sds == FAIL) { wl_nfail++; WL_DBG(sds); }
       else { int32 st[2] = {1, 2}, ct[2] = {2, 3}; int16 v[6] = {100, 101, 102, 103, 104, 105}; CK(SDwritedata(sds, st, NULL, ct, v)); float32 f = 9.0f; CK(SDsetattr(sds, "scale", DFNT_FLOAT32, 1, &f)); CK(SDendaccess(sds)); } }
     CK(SDend(sd));
 done: return wl_nfail;
@@ -243,8 +246,8 @@ static int run_create(const char *path)         /* fresh file creation through H
     CKID(fid, Hopen(path, DFACC_CREATE, 5));
     wl_fill(b, 100, 60); CK(Hputelement(fid, 2000, 1, b, 100)); CK(Hputelement(fid, 2000, 2, b, 10));
     CK(Hclose(fid));
-    ID(sd, SDstart(path, DFACC_RDWR)); if (sd == FAIL) wl_nfail++;
-    else { int32 dim = 8, st = 0; ID(sds, SDcreate(sd, "v", DFNT_UINT8, 1, &dim)); if (sds == FAIL) wl_nfail++; else { CK(SDwritedata(sds, &st, NULL, &dim, b)); CK(SDendaccess(sds)); } CK(SDend(sd)); }
+    ID(sd, SDstart(path, DFACC_RDWR)); if (sd == FAIL) { wl_nfail++; WL_DBG(sd); }
+    else { int32 dim = 8, st = 0; ID(sds, SDcreate(sd, "v", DFNT_UINT8, 1, &dim)); if (sds == FAIL) { wl_nfail++; WL_DBG(sds); } else { CK(SDwritedata(sds, &st, NULL, &dim, b)); CK(SDendaccess(sds)); } CK(SDend(sd)); }
 done: return wl_nfail;
 }
 /* read everything that prep_rich stored; returns failures; data is verified by the caller through wl_read_sum */
@@ -253,21 +256,21 @@ static int run_read_all(const char *path)
 {
     uint8 b[4000]; int32 fid, aid, vs, vg, sd, sds, gr, ri, an; wl_nfail = 0; wl_read_sum = 0;
     CKID(fid, Hopen(path, DFACC_READ, 0));
-    { int32 n = (wr_set("Hgetelement"), Hgetelement(fid, 1000, 2, b)); if (n == FAIL) wl_nfail++; else for (int i = 0; i < n; i++) wl_read_sum = wl_read_sum * 31 + b[i]; }
-    ID(aid, Hstartread(fid, 1002, 1)); if (aid == FAIL) wl_nfail++; else { int32 n = (wr_set("Hread"), Hread(aid, 0, b)); if (n == FAIL) wl_nfail++; else for (int i = 0; i < n; i++) wl_read_sum = wl_read_sum * 31 + b[i]; CK(Hendaccess(aid)); }
+    { int32 n = (wr_set("Hgetelement"), Hgetelement(fid, 1000, 2, b)); if (n == FAIL) { wl_nfail++; WL_DBG(n); } else for (int i = 0; i < n; i++) wl_read_sum = wl_read_sum * 31 + b[i]; }
+    ID(aid, Hstartread(fid, 1002, 1)); if (aid == FAIL) { wl_nfail++; WL_DBG(aid); } else { int32 n = (wr_set("Hread"), Hread(aid, 0, b)); if (n == FAIL) { wl_nfail++; WL_DBG(n); } else for (int i = 0; i < n; i++) wl_read_sum = wl_read_sum * 31 + b[i]; CK(Hendaccess(aid)); }
     CK(Vstart(fid));
     { int32 ref = (wr_set("VSfind"), VSfind(fid, "table")); vs = ref > 0 ? (wr_set("VSattach"), VSattach(fid, ref, "r")) : FAIL;
-      if (vs == FAIL) wl_nfail++; else { CK(VSsetfields(vs, "b,a")); int32 n = (wr_set("VSread"), VSread(vs, b, 20, FULL_INTERLACE)); if (n == FAIL) wl_nfail++; else for (int i = 0; i < n * 12; i++) wl_read_sum = wl_read_sum * 31 + b[i]; CK(VSdetach(vs)); } }
+      if (vs == FAIL) { wl_nfail++; WL_DBG(vs); } else { CK(VSsetfields(vs, "b,a")); int32 n = (wr_set("VSread"), VSread(vs, b, 20, FULL_INTERLACE)); if (n == FAIL) { wl_nfail++; WL_DBG(n); } else for (int i = 0; i < n * 12; i++) wl_read_sum = wl_read_sum * 31 + b[i]; CK(VSdetach(vs)); } }
     { int32 ref = (wr_set("Vfind"), Vfind(fid, "group")); vg = ref > 0 ? (wr_set("Vattach"), Vattach(fid, ref, "r")) : FAIL;
-      if (vg == FAIL) wl_nfail++; else { int32 t[8], r[8]; int32 n = (wr_set("Vgettagrefs"), Vgettagrefs(vg, t, r, 8)); if (n == FAIL) wl_nfail++; else for (int i = 0; i < n; i++) wl_read_sum = wl_read_sum * 31 + (unsigned long)(t[i] * 65536 + r[i]); CK(Vdetach(vg)); } }
+      if (vg == FAIL) { wl_nfail++; WL_DBG(vg); } else { int32 t[8], r[8]; int32 n = (wr_set("Vgettagrefs"), Vgettagrefs(vg, t, r, 8)); if (n == FAIL) { wl_nfail++; WL_DBG(n); } else for (int i = 0; i < n; i++) wl_read_sum = wl_read_sum * 31 + (unsigned long)(t[i] * 65536 + r[i]); CK(Vdetach(vg)); } }
     CK(Vend(fid));
-    ID(an, ANstart(fid)); if (an == FAIL) wl_nfail++;
-    else { int32 nfl, nfd, nol, nod; CK(ANfileinfo(an, &nfl, &nfd, &nol, &nod)); int32 a = (wr_set("ANselect"), ANselect(an, 0, AN_DATA_LABEL)); if (a == FAIL) wl_nfail++; else { int32 l = (wr_set("ANannlen"), ANannlen(a)); if (l == FAIL) wl_nfail++; else { CK(ANreadann(a, (char *)b, l + 1)); for (int i = 0; i < l; i++) wl_read_sum = wl_read_sum * 31 + b[i]; } CK(ANendaccess(a)); } CK(ANend(an)); }
-    ID(gr, GRstart(fid)); if (gr == FAIL) wl_nfail++;
-    else { ID(ri, GRselect(gr, 0)); if (ri == FAIL) wl_nfail++; else { int32 dims[2] = {5, 4}, st[2] = {0, 0}; if ((wr_set("GRreadimage"), GRreadimage(ri, st, NULL, dims, b)) == FAIL) wl_nfail++; else for (int i = 0; i < 60; i++) wl_read_sum = wl_read_sum * 31 + b[i]; CK(GRendaccess(ri)); } CK(GRend(gr)); }
+    ID(an, ANstart(fid)); if (an == FAIL) { wl_nfail++; WL_DBG(an); }
+    else { int32 nfl, nfd, nol, nod; CK(ANfileinfo(an, &nfl, &nfd, &nol, &nod)); int32 a = (wr_set("ANselect"), ANselect(an, 0, AN_DATA_LABEL)); if (a == FAIL) { wl_nfail++; WL_DBG(a); } else { int32 l = (wr_set("ANannlen"), ANannlen(a)); if (l == FAIL) { wl_nfail++; WL_DBG(l); } else { CK(ANreadann(a, (char *)b, l + 1)); for (int i = 0; i < l; i++) wl_read_sum = wl_read_sum * 31 + b[i]; } CK(ANendaccess(a)); } CK(ANend(an)); }
+    ID(gr, GRstart(fid)); if (gr == FAIL) { wl_nfail++; WL_DBG(gr); }
+    else { ID(ri, GRselect(gr, 0)); if (ri == FAIL) { wl_nfail++; WL_DBG(ri); } else { int32 dims[2] = {5, 4}, st[2] = {0, 0}; if ((wr_set("GRreadimage"), GRreadimage(ri, st, NULL, dims, b)) == FAIL) wl_nfail++; else for (int i = 0; i < 60; i++) wl_read_sum = wl_read_sum * 31 + b[i]; CK(GRendaccess(ri)); } CK(GRend(gr)); }
     CK(Hclose(fid));
-    ID(sd, SDstart(path, DFACC_READ)); if (sd == FAIL) wl_nfail++;
-    else { ID(sds, SDselect(sd, 0)); if (sds == FAIL) wl_nfail++; else { int32 dims[2] = {4, 6}, st[2] = {0, 0}; if ((wr_set("SDreaddata"), SDreaddata(sds, st, NULL, dims, b)) == FAIL) wl_nfail++; else for (int i = 0; i < 48; i++) wl_read_sum = wl_read_sum * 31 + b[i]; float32 f; int32 ai = (wr_set("SDfindattr"), SDfindattr(sds, "scale")); if (ai == FAIL) wl_nfail++; else CK(SDreadattr(sds, ai, &f)); CK(SDendaccess(sds)); } CK(SDend(sd)); }
+    ID(sd, SDstart(path, DFACC_READ)); if (sd == FAIL) { wl_nfail++; WL_DBG(sd); }
+    else { ID(sds, SDselect(sd, 0)); if (sds == FAIL) { wl_nfail++; WL_DBG(sds); } else { int32 dims[2] = {4, 6}, st[2] = {0, 0}; if ((wr_set("SDreaddata"), SDreaddata(sds, st, NULL, dims, b)) == FAIL) wl_nfail++; else for (int i = 0; i < 48; i++) wl_read_sum = wl_read_sum * 31 + b[i]; float32 f; int32 ai = (wr_set("SDfindattr"), SDfindattr(sds, "scale")); if (ai == FAIL) { wl_nfail++; WL_DBG(ai); } else CK(SDreadattr(sds, ai, &f)); CK(SDendaccess(sds)); } CK(SDend(sd)); }
 done: return wl_nfail;
 }
 
